@@ -34,12 +34,12 @@ theorem advance_clock (a a' : Animator α) (ns : Nat) (h : a.advanceNs ns = .ok 
 
 /-- after any history, `current_values` is the current state's timeline evaluated at the time spent in
 that state (first sentence of the property), by C04.`good_run` -/
-theorem values_follow_timeline (n : Nat) (timelines : List (Option (Merged α))) (s0 : Nat) (v0 : List (Val α))
-    (hlen : v0.length = n) (hblend : ∀ m, some m ∈ timelines → BlendOK n m)
+theorem values_follow_timeline (P : List (Val α) → Prop) (timelines : List (Option (Merged α))) (s0 : Nat) (v0 : List (Val α))
+    (hlen : P v0) (hblend : ∀ m, some m ∈ timelines → C04.TlOK P m)
     (ops : List (AnimOp α)) (a : Animator α) (hrun : (Animator.new timelines s0 v0).run ops = .ok a)
     (tl : Merged α) (htl : a.timeline? a.state = some tl) :
     tl.update a.values (Num.secsOfNanos a.stateNs) = .ok a.values :=
-  (C04.good_run n _ a ops (C04.good_initial n timelines s0 v0 hlen hblend) hrun).inv.current tl htl
+  (C04.good_run P _ a ops (C04.good_initial P timelines s0 v0 hlen hblend) hrun).inv.current tl htl
 
 /-- entering a state (not a resume) starts its timeline from the values held at that moment, with the
 clock at zero -/
@@ -121,10 +121,10 @@ theorem pause_discarded_on_other_animated (a a' : Animator α) (s : Nat) (hne : 
 
 /-- … and a remembered pause for another state only exists while the current state is un-animated
 (part of the invariant, over any history) -/
-theorem pause_only_while_unanimated (n : Nat) (timelines : List (Option (Merged α))) (s0 : Nat) (v0 : List (Val α))
-    (hlen : v0.length = n) (hblend : ∀ m, some m ∈ timelines → BlendOK n m)
+theorem pause_only_while_unanimated (P : List (Val α) → Prop) (timelines : List (Option (Merged α))) (s0 : Nat) (v0 : List (Val α))
+    (hlen : P v0) (hblend : ∀ m, some m ∈ timelines → C04.TlOK P m)
     (ops : List (AnimOp α)) (a : Animator α) (hrun : (Animator.new timelines s0 v0).run ops = .ok a)
     (ps pos : Nat) (hp : a.paused = some (ps, pos)) (hne : ps ≠ a.state) : a.timeline? a.state = none :=
-  ((C04.good_run n _ a ops (C04.good_initial n timelines s0 v0 hlen hblend) hrun).inv.paused ps pos hp hne).1
+  ((C04.good_run P _ a ops (C04.good_initial P timelines s0 v0 hlen hblend) hrun).inv.paused ps pos hp hne).1
 
 end C05
